@@ -433,7 +433,12 @@ class SecopClient(ProxyClient):
             if not parked:
                 line = encode_msg_frame(*request)
                 self.log.debug('TX: %r', line)
-                self.io.send(line)
+                try:
+                    self.io.send(line)
+                except Exception as e:
+                    # connection lost or shut down: close it, the waiting callers are released
+                    self.log.debug('can not send: %r', e)
+                    break
         self._txthread = None
         self.disconnect(False)
 
